@@ -423,3 +423,148 @@ print("OK")
     if "NOFALLBACK" in p.stdout:
         return {}
     return {f"aesimg{i}": outdir / f"aesimg{i}.pdf" for i in (1, 2)}
+
+
+# --------------------------------------------------------------------------- round 5: helpers shared by threads
+_M = "http://schemas.openxmlformats.org/officeDocument/2006/math"
+_W = "http://schemas.openxmlformats.org/wordprocessingml/2006/main"
+_A = "http://schemas.openxmlformats.org/drawingml/2006/main"
+_P = "http://schemas.openxmlformats.org/presentationml/2006/main"
+_R = "http://schemas.openxmlformats.org/officeDocument/2006/relationships"
+_PKG = "http://schemas.openxmlformats.org/package/2006/relationships"
+_CT = "http://schemas.openxmlformats.org/package/2006/content-types"
+
+
+def _mr(t):
+    return f"<m:r><m:t>{t}</m:t></m:r>"
+
+
+def formula(kind: str, tag: int, runs: int = 60) -> str:
+    """OMML formulas that reach the converter's stateful paths: 'sloppy' = <m:rad> holding only "(" with the
+    radicand and ")" following as runs (pending-bracket stack), 'nested' = sqrt of a fraction of a sqrt,
+    'brackets' = plain runs with parentheses (the victims of a stolen bracket)"""
+    if kind == "sloppy":
+        rad = "".join(_mr(f"a{tag}+") for _ in range(runs))
+        return ('<m:oMath><m:rad><m:radPr><m:degHide m:val="1"/></m:radPr><m:deg/>'
+                f"<m:e>{_mr('(')}</m:e></m:rad>{rad}{_mr('z)')}{_mr('+1')}</m:oMath>")
+    if kind == "nested":
+        inner = f'<m:rad><m:radPr><m:degHide m:val="1"/></m:radPr><m:deg/><m:e>{_mr(f"x{tag}")}</m:e></m:rad>'
+        frac = f"<m:f><m:num>{inner}</m:num><m:den>{_mr(f'y{tag}+1')}</m:den></m:f>"
+        return (f'<m:oMath><m:rad><m:radPr/><m:deg>{_mr("3")}</m:deg><m:e>{frac}</m:e></m:rad>'
+                + "".join(_mr(f"+b{tag}") for _ in range(runs // 2)) + "</m:oMath>")
+    return "<m:oMath>" + "".join(_mr(f"g{tag}(t)+") for _ in range(runs)) + _mr("c") + "</m:oMath>"
+
+
+def _zip(parts: dict) -> bytes:
+    import io
+    import zipfile
+    buf = io.BytesIO()
+    with zipfile.ZipFile(buf, "w", zipfile.ZIP_DEFLATED) as z:
+        for name, data in parts.items():
+            z.writestr(zipfile.ZipInfo(name, date_time=(2020, 1, 1, 0, 0, 0)), data,
+                       compress_type=zipfile.ZIP_STORED if name == "mimetype" else zipfile.ZIP_DEFLATED)
+    return buf.getvalue()
+
+
+def make_docx(body_xml: str) -> bytes:
+    types = (f'<?xml version="1.0" encoding="UTF-8" standalone="yes"?><Types xmlns="{_CT}">'
+             '<Default Extension="rels" ContentType="application/vnd.openxmlformats-package.relationships+xml"/>'
+             '<Default Extension="xml" ContentType="application/xml"/><Override PartName="/word/document.xml" '
+             'ContentType="application/vnd.openxmlformats-officedocument.wordprocessingml.document.main+xml"/></Types>')
+    rels = (f'<?xml version="1.0" encoding="UTF-8" standalone="yes"?><Relationships xmlns="{_PKG}"><Relationship Id="rId1" '
+            f'Type="{_R}/officeDocument" Target="word/document.xml"/></Relationships>')
+    doc = (f'<?xml version="1.0" encoding="UTF-8" standalone="yes"?><w:document xmlns:w="{_W}" xmlns:m="{_M}">'
+           f"<w:body>{body_xml}<w:sectPr/></w:body></w:document>")
+    return _zip({"[Content_Types].xml": types, "_rels/.rels": rels, "word/document.xml": doc})
+
+
+def make_pptx(slide_bodies) -> bytes:
+    n = len(slide_bodies)
+    types = (f'<?xml version="1.0" encoding="UTF-8" standalone="yes"?><Types xmlns="{_CT}">'
+             '<Default Extension="rels" ContentType="application/vnd.openxmlformats-package.relationships+xml"/>'
+             '<Default Extension="xml" ContentType="application/xml"/><Override PartName="/ppt/presentation.xml" '
+             'ContentType="application/vnd.openxmlformats-officedocument.presentationml.presentation.main+xml"/>'
+             + "".join(f'<Override PartName="/ppt/slides/slide{i}.xml" ContentType="application/vnd.openxmlformats-'
+                       f'officedocument.presentationml.slide+xml"/>' for i in range(1, n + 1)) + "</Types>")
+    rels = (f'<?xml version="1.0" encoding="UTF-8" standalone="yes"?><Relationships xmlns="{_PKG}"><Relationship Id="rId1" '
+            f'Type="{_R}/officeDocument" Target="ppt/presentation.xml"/></Relationships>')
+    pres = (f'<?xml version="1.0" encoding="UTF-8" standalone="yes"?><p:presentation xmlns:p="{_P}" xmlns:r="{_R}">'
+            "<p:sldIdLst>" + "".join(f'<p:sldId id="{255 + i}" r:id="rId{i}"/>' for i in range(1, n + 1))
+            + "</p:sldIdLst></p:presentation>")
+    prels = (f'<?xml version="1.0" encoding="UTF-8" standalone="yes"?><Relationships xmlns="{_PKG}">'
+             + "".join(f'<Relationship Id="rId{i}" Type="{_R}/slide" Target="slides/slide{i}.xml"/>'
+                       for i in range(1, n + 1)) + "</Relationships>")
+    parts = {"[Content_Types].xml": types, "_rels/.rels": rels, "ppt/presentation.xml": pres,
+             "ppt/_rels/presentation.xml.rels": prels}
+    for i, body in enumerate(slide_bodies, 1):
+        parts[f"ppt/slides/slide{i}.xml"] = (
+            f'<?xml version="1.0" encoding="UTF-8" standalone="yes"?><p:sld xmlns:p="{_P}" xmlns:a="{_A}" xmlns:m="{_M}" '
+            'xmlns:a14="http://schemas.microsoft.com/office/drawing/2010/main"><p:cSld><p:spTree><p:nvGrpSpPr>'
+            '<p:cNvPr id="1" name=""/><p:cNvGrpSpPr/><p:nvPr/></p:nvGrpSpPr><p:grpSpPr/><p:sp><p:nvSpPr><p:cNvPr id="2" '
+            f'name="T"/><p:cNvSpPr/><p:nvPr/></p:nvSpPr><p:spPr/><p:txBody><a:bodyPr/>{body}</p:txBody></p:sp>'
+            "</p:spTree></p:cSld></p:sld>")
+    return _zip(parts)
+
+
+def _wtbl(rows) -> str:
+    return "<w:tbl>" + "".join("<w:tr>" + "".join(f"<w:tc>{c}</w:tc>" for c in r) + "</w:tr>" for r in rows) + "</w:tbl>"
+
+
+def _wp(t) -> str:
+    return f"<w:p><w:r><w:t>{t}</w:t></w:r></w:p>"
+
+
+def office_docs() -> dict:
+    """formula-heavy docx / pptx (one kind of formula per document, so the correct outputs differ), docx with
+    tables nested in table cells (several, different sizes) and a docx with one large ordinary table"""
+    out = {}
+    for kind in ("sloppy", "nested", "brackets"):
+        body = "".join(f"<w:p><w:r><w:t>Equation {i}</w:t></w:r>{formula(kind, i)}</w:p>" for i in range(40))
+        out[f"formulas-{kind}.docx"] = make_docx(body)
+        slides = ["".join(f"<a:p><a:r><a:t>Slide eq {s}.{i}</a:t></a:r><a14:m><m:oMathPara>{formula(kind, 100 + i)}"
+                          "</m:oMathPara></a14:m></a:p>" for i in range(8)) for s in range(3)]
+        out[f"formulas-{kind}.pptx"] = make_pptx(slides)
+    for n in range(1, 6):
+        inner = _wtbl([[_wp(f"in{n}-{r}-{c}") for c in range(3)] for r in range(4 * n)])
+        rows = [[_wp(f"out{n}-{r}-0"), _wp(f"out{n}-{r}-1") + inner] for r in range(6)]
+        out[f"tables-a-nested-{n}.docx"] = make_docx(_wp(f"Nested tables {n}") + _wtbl(rows))
+    big = _wtbl([[_wp(f"cell-{r}-{c}") for c in range(8)] for r in range(40)])
+    out["tables-b-large.docx"] = make_docx(_wp("One large table") + big + _wp("after the table"))
+    return out
+
+
+def make_odf(kind: str, body_xml: str) -> bytes:
+    mt = {"odt": "application/vnd.oasis.opendocument.text", "ods": "application/vnd.oasis.opendocument.spreadsheet",
+          "odp": "application/vnd.oasis.opendocument.presentation"}[kind]
+    ns = ('xmlns:office="urn:oasis:names:tc:opendocument:xmlns:office:1.0" '
+          'xmlns:text="urn:oasis:names:tc:opendocument:xmlns:text:1.0" '
+          'xmlns:table="urn:oasis:names:tc:opendocument:xmlns:table:1.0" '
+          'xmlns:draw="urn:oasis:names:tc:opendocument:xmlns:drawing:1.0"')
+    tag = {"odt": "text", "ods": "spreadsheet", "odp": "presentation"}[kind]
+    content = (f'<?xml version="1.0" encoding="UTF-8"?><office:document-content {ns} office:version="1.2">'
+               f"<office:body><office:{tag}>{body_xml}</office:{tag}></office:body></office:document-content>")
+    manifest = ('<?xml version="1.0" encoding="UTF-8"?><manifest:manifest '
+                'xmlns:manifest="urn:oasis:names:tc:opendocument:xmlns:manifest:1.0" manifest:version="1.2">'
+                f'<manifest:file-entry manifest:full-path="/" manifest:media-type="{mt}"/>'
+                '<manifest:file-entry manifest:full-path="content.xml" manifest:media-type="text/xml"/></manifest:manifest>')
+    return _zip({"mimetype": mt, "content.xml": content, "META-INF/manifest.xml": manifest})
+
+
+def odf_docs() -> dict:
+    """ODF documents that fail in the MIDDLE of a paragraph (text already collected, then an absurd
+    text:s repeat count / a >1000-deep span nesting), and small healthy ODT / ODS / ODP to follow them"""
+    boom = '<text:s text:c="100000000000000000000"/>'
+    deep = "<text:span>" * 1500 + "x" + "</text:span>" * 1500
+    cell = '<table:table-cell><text:p>{}</text:p></table:table-cell>'
+    out = {
+        "fail-midparagraph.odt": make_odf("odt", f"<text:p>CONFIDENTIAL draft{boom}tail</text:p>"),
+        "fail-deepspans.odt": make_odf("odt", f"<text:p>SECRET prefix {deep}</text:p>"),
+        "fail-midparagraph.ods": make_odf("ods", '<table:table table:name="S"><table:table-row>'
+                                          + cell.format(f"LEAK cell{boom}") + "</table:table-row></table:table>"),
+        "small.odt": make_odf("odt", "<text:h>Region report</text:h><text:p>first paragraph</text:p>"),
+        "small.ods": make_odf("ods", '<table:table table:name="S"><table:table-row>' + cell.format("Region")
+                              + cell.format("Sales") + "</table:table-row></table:table>"),
+        "small.odp": make_odf("odp", '<draw:page draw:name="p1"><draw:frame><draw:text-box><text:p>Slide text'
+                              "</text:p></draw:text-box></draw:frame></draw:page>"),
+    }
+    return out
